@@ -410,6 +410,38 @@ pub fn run(op: &str, t: &[&str], v: &[Val], out: &mut Out) -> bool {
                                 let i2 = it.take().unwrap();
                                 out.call(|| i2.map(|x| x as u128).sum::<u128>());
                             }
+                            b'M' => {
+                                let i2 = it.take().unwrap();
+                                out.call(|| i2.map(|x| x as u64).max());
+                            }
+                            b'm' => {
+                                let i2 = it.take().unwrap();
+                                out.call(|| i2.min().map(|x| x as u64));
+                            }
+                            b'A' => {
+                                let mut i2 = it.take().unwrap();
+                                out.call(|| { let r = (&mut i2).all(|_| true); vec![r as u64, i2.len() as u64] });
+                            }
+                            b'P' => {
+                                let mut i2 = it.take().unwrap();
+                                out.call(|| { let r = i2.position(|x| x % 2 == 1); vec![r.map(|p| p as u64 + 1).unwrap_or(0), i2.len() as u64] });
+                            }
+                            b'p' => {
+                                let mut i2 = it.take().unwrap();
+                                out.call(|| { let r = i2.rposition(|x| x % 2 == 1); vec![r.map(|p| p as u64 + 1).unwrap_or(0), i2.len() as u64] });
+                            }
+                            b'Y' => {
+                                let mut i2 = it.take().unwrap();
+                                out.call(|| { let r = i2.rfind(|x| x % 2 == 1); vec![r.map(|v| v as u64).unwrap_or(u64::MAX), r.is_some() as u64, i2.len() as u64] });
+                            }
+                            b'Q' => {
+                                let i2 = it.take().unwrap();
+                                out.call(|| i2.step_by(2).map(|x| x as u64).collect::<Vec<u64>>());
+                            }
+                            b'Z' => {
+                                let mut i2 = it.take().unwrap();
+                                out.call(|| { let mut v: Vec<u64> = (&mut i2).take(2).map(|x| x as u64).collect(); v.push(i2.len() as u64); v });
+                            }
                             b'E' => {
                                 // for_each through a by-ref adaptor, then what is left
                                 let mut i2 = it.take().unwrap();
